@@ -51,6 +51,7 @@ type world struct {
 	goBuilds   int
 	closed     bool
 	par        int
+	mu         sync.Mutex
 }
 
 func repoFromWorkspace(goWork string) (string, error) {
@@ -119,7 +120,7 @@ func (w *world) close() {
 
 func parseHeader(header string) (*item, error) {
 	ws := strings.Fields(header)
-	if len(ws) < 3 || ws[0] != "case" || ws[1] != "gg" {
+	if len(ws) < 3 || ws[0] != "case" || (ws[1] != "gg" && ws[1] != "go_") {
 		return nil, fmt.Errorf("not a gg case header")
 	}
 	it := &item{header: header, gen: ws[2]}
